@@ -5,7 +5,7 @@ unshifted), Real/ReciprocalSpaceLineProfiles, PolarMeasurements, MeasurementsEns
 SMatrixArray} x ensemble axis kinds {none, ordinal, scan, tilt pairs, positions, frozen phonons, thickness, parameter, two axes}
 x dtypes {float32, float64, complex64} where the class allows x metadata {empty, tuple, nested dict, numpy scalar, numpy
 array, None value} x lazy/eager x store {directory, .zip} x {single object, ComputableList of two}.
-Oracle: same type; array_equal incl. dtype; per-axis equality of type and axis_to_dict; metadata compared deeply (a NumPy
+Oracle: same type; array_equal incl. dtype; per-axis equality of type and of every dataclass field (incl. the underscore flags, read directly, not through axis_to_dict); metadata compared deeply (a NumPy
 scalar and the Python scalar of equal value count as identical: JSON attributes cannot carry the NumPy type).
 """
 import itertools
@@ -26,7 +26,7 @@ META = dict(
 )
 CLASSES = ["Waves", "WavesReciprocal", "Images", "DiffractionPatterns", "DiffractionPatternsUnshifted", "RealSpaceLineProfiles", "ReciprocalSpaceLineProfiles",
            "PolarMeasurements", "MeasurementsEnsemble", "PotentialArray", "SMatrixArray"]
-AXES = ["none", "ordinal", "scan", "tilt", "positions", "fp", "thickness", "parameter", "ordinal+scan"]
+AXES = ["none", "ordinal", "scan", "tilt", "positions", "fp", "thickness", "parameter", "ordinal+scan", "flags"]
 METAS = ["empty", "tuple", "nested", "npscalar", "nparray", "none"]
 
 
@@ -58,6 +58,7 @@ def make_axes(kind):
         "tilt": [A.TiltAxis(label="tilt", values=((0.0, 1.0), (2.0, -3.0), (4.5, 0.0)))],
         "positions": [A.PositionsAxis(values=((0.0, 0.0), (1.0, 2.0), (3.5, 0.25)))],
         "fp": [A.FrozenPhononsAxis(_ensemble_mean=True)],
+        "flags": [A.ScanAxis(label="x", sampling=0.5, offset=1.0, units="Å", _main=False), A.OrdinalAxis(label="o", values=(1, 2), _default_type="overlay", _squeeze=True)],
         "thickness": [A.ThicknessAxis(values=(0.0, 2.0, 4.5))],
         "parameter": [A.ParameterAxis(label="C10", values=(-10.0, 0.0, 25.0), units="Å", tex_label="$C_{10}$", _ensemble_mean=False)],
         "ordinal+scan": [A.OrdinalAxis(label="q", values=("a", "b")), A.ScanAxis(label="y", sampling=0.25, units="Å")],
@@ -76,7 +77,7 @@ def make(c):
     from mc.compare import rng
 
     axes = make_axes(c["axes"])
-    sh = tuple(3 if not (c["axes"] == "ordinal+scan") else (2, 3)[i] for i in range(len(axes)))
+    sh = tuple(3 if c["axes"] not in ("ordinal+scan", "flags") else ((2, 3) if c["axes"] == "ordinal+scan" else (3, 2))[i] for i in range(len(axes)))
     md = make_meta(c["meta"])
     r = rng("c30", c["cls"], c["axes"])
     dt = {"default": np.float32, "float64": np.float64, "complex64": np.complex64}[c["dtype"]]
@@ -185,7 +186,12 @@ def compare(orig, back, bad):
             if type(x) is not type(y):
                 bad("axes/type", "axis %d: %s became %s" % (i, type(x).__name__, type(y).__name__))
                 continue
-            d = deep_equal(axis_to_dict(x), axis_to_dict(y), "axis%d" % i)
+            # field-by-field through dataclasses, NOT through abTEM's own axis_to_dict (the serialiser under test must not be the oracle)
+            import dataclasses
+
+            fx = {f.name: getattr(x, f.name) for f in dataclasses.fields(x)}
+            fy = {f.name: getattr(y, f.name) for f in dataclasses.fields(y)}
+            d = deep_equal(fx, fy, "axis%d" % i)
             if d:
                 bad("axes/fields/" + type(x).__name__, d)
     d = deep_equal(dict(orig.metadata), dict(back.metadata))
